@@ -18,6 +18,10 @@ CHECKS = {
          "Trusts the IR read accessors; arguments are always of the documented kind."),
  "C14": ("iredit", "A", "Seeded search over hostile histories (one violated precondition or a colliding/illegal name per call, compound constructors); identity-level snapshot + lookup answers + process settings compared around every refused call.",
          "Any exception raised by an editing call counts as a refusal; lookup answers are read through global_service.lookup; listener vetoes are not a refusal cause of this property."),
+ "C19": ("iredit", "A", "Seeded search over histories of editing calls with simulator-owned listeners (announcement-driven shadows, passive, gc-inside-callback, head-of-event veto) registered and removed at seeded points; every shadow is compared with the real state after every event, and the same trace without third-party listeners must behave identically.",
+         "Order inside containers is not part of the mirror (announcements carry no position); after a simulator veto the shadows are re-synchronised; vetoes are injected only at the first announcement of an event."),
+ "C10": ("iredit", "A", "Seeded search over naming histories (create/add/remove/re-add, rename, identifier set/delete/pop, clone, policy switches, GC) under both policies; after every event every scope is queried through the public get_* functions for every present value and its case variant and compared with a list scan; ValueError outcomes are compared with an independent duplicate/illegal/compliance prediction made before the call.",
+         "A parent's policy is its own '.NS' entry; the '.NS' entry itself is not edited by the workload; one open finding (first_of_duplicates under DEFAULT identifiers) is listed in KNOWN_FINDINGS.txt."),
 }
 
 def main():
